@@ -308,3 +308,38 @@ func (r *Run) Finish() int {
 	}
 	return 0
 }
+
+// Scratch returns an empty run that collects the obligations of rules borrowed from another
+// property's rule set (no known findings, never finished or printed).
+func (r *Run) Scratch() *Run {
+	return &Run{Property: r.Property, Tier: r.Tier, Seed: r.Seed, Start: r.Start, Prog: r.Prog, Notes: map[string]any{}, known: &KnownFile{}}
+}
+
+// Import copies the obligations of rule fromRule of a scratch run into this run under the rule id
+// asRule (created with desc and floor), keeping only keys accepted by keep (nil = all).
+func (r *Run) Import(from *Run, fromRule, asRule, desc string, floor int, keep func(key string) bool) {
+	dst := r.Rule(asRule, desc, floor)
+	for _, ru := range from.Rules {
+		if ru.ID != fromRule {
+			continue
+		}
+		for _, o := range ru.obs {
+			if keep != nil && !keep(o.Key) {
+				continue
+			}
+			switch o.Status {
+			case OK:
+				dst.Ok(o.Key, o.Pos, o.Msg)
+			case Excepted:
+				dst.Except(o.Key, o.Pos, o.Msg)
+			case Undecided:
+				dst.Undecided(o.Key, o.Pos, o.Msg)
+			default:
+				dst.Fail(o.Key, o.Pos, o.Msg)
+			}
+		}
+	}
+	for _, f := range from.fatal {
+		dst.Undecided("borrowed:"+fromRule, "", f)
+	}
+}
